@@ -115,6 +115,8 @@ def main(run: Run):
     run_configs(run, __name__, cfgs, must_accept=True)
     from . import C13_l1
     C13_l1.add_to(run)
+    from . import ctor_l1
+    ctor_l1.add_to(run, ['monitor_init'])
     return run.finish(
         explanation="Monitor.elaborate contract clauses discharged as QF_BV obligations on the NIR netlist from an "
                     "arbitrary state (1- and 2-step) plus reset clauses; induction over cycles gives all histories. "
